@@ -10,6 +10,7 @@ use serde_json::json;
 use std::collections::BTreeSet;
 
 const MAX_DEV: usize = 2;
+const N_MESHES: usize = 4;
 const EXEC_CAP: usize = 50_000;
 
 pub fn subject(which: usize) -> Mesh {
@@ -23,6 +24,12 @@ pub fn subject(which: usize) -> Mesh {
             // "roof": two normals sharing vertices
             let v = vec![Point3::new(0.0, 0.0, 0.0), Point3::new(0.0, 1.0, 0.0), Point3::new(1.0, 0.0, 0.0), Point3::new(1.0, 1.0, 0.0), Point3::new(-1.0, 0.0, 1.0), Point3::new(-1.0, 1.0, 1.0)];
             Mesh::new(v, vec![[0, 2, 3], [0, 3, 1], [4, 0, 1], [4, 1, 5]], false)
+        }
+        3 => {
+            // the roof plus a zero-area face (three collinear vertices): it has no normal, so only the
+            // distance part of a criterion can apply to it
+            let v = vec![Point3::new(0.0, 0.0, 0.0), Point3::new(0.0, 1.0, 0.0), Point3::new(1.0, 0.0, 0.0), Point3::new(1.0, 1.0, 0.0), Point3::new(-1.0, 0.0, 1.0), Point3::new(-1.0, 1.0, 1.0), Point3::new(2.0, 0.0, 0.0)];
+            Mesh::new(v, vec![[0, 2, 3], [0, 3, 1], [4, 0, 1], [4, 1, 5], [0, 2, 6]], false)
         }
         _ => {
             let v = vec![Point3::new(1.0, 0.0, 0.0), Point3::new(-1.0, 0.0, 0.0), Point3::new(0.0, 1.0, 0.0), Point3::new(0.0, -1.0, 0.0), Point3::new(0.0, 0.0, 1.0), Point3::new(0.0, 0.0, -1.0)];
@@ -88,9 +95,10 @@ fn geometric(mesh: &Mesh, oth: &[Mesh], f: usize, crit: &Crit) -> Option<bool> {
     let v = mesh.vertices();
     let t = mesh.faces()[f];
     let (a, b, c) = (v[t[0] as usize], v[t[1] as usize], v[t[2] as usize]);
-    let n = tri_normal(&a, &b, &c)?;
+    let n = tri_normal(&a, &b, &c);
     match crit {
         Crit::Facing(d, ang) => {
+            let n = n?;
             let dv = Vector3::new(d[0], d[1], d[2]);
             let x = n.angle(&dv);
             if (x - ang).abs() < 1e-9 {
@@ -117,7 +125,8 @@ fn geometric(mesh: &Mesh, oth: &[Mesh], f: usize, crit: &Crit) -> Option<bool> {
                     ok &= 0.0 <= *pt;
                 }
                 if let Some(at) = angle {
-                    let x = n.angle(&rn);
+                    // a face without a normal has no angle to judge
+                    let x = n?.angle(&rn);
                     if (x - at).abs() < 1e-9 {
                         return None;
                     }
@@ -153,8 +162,8 @@ struct Tables {
 }
 
 fn tables() -> Tables {
-    let meshes: Vec<Mesh> = (0..3).map(subject).collect();
-    let oth: Vec<Vec<Mesh>> = (0..3).map(others).collect();
+    let meshes: Vec<Mesh> = (0..N_MESHES).map(subject).collect();
+    let oth: Vec<Vec<Mesh>> = (0..N_MESHES).map(others).collect();
     let cs = crits();
     let mut pred = Vec::new();
     for (mi, m) in meshes.iter().enumerate() {
@@ -285,7 +294,7 @@ fn expand(t: &Tables, st: &State, depth: usize, l: &mut Local, out: &mut Vec<Sta
 
 pub fn run(tier: Tier) -> i32 {
     let mut cx = Ctx::new("C14", tier, "model_checking");
-    cx.rule = "explicit-state search over selections (bit sets over the faces of a tetrahedron, a two-normal 'roof' and an octahedron): initial states none, all, every singleton, every pair; actions {Add, Remove, Keep} x {facing: 7 directions x 3 angles; near_mesh: 3 reference meshes x all/any vertices x 2 distances x planar None/0.2 x angle None/0.3/1.0}; every transition (and the mesh built from every state) is executed under all hash-set iteration orders with at most 2 departures from the default order; the per-face predicate is computed (i) independently from the geometry for the plane references and (ii) by the code itself in the canonical context (singleton selection, Keep). distinct = distinct (mesh, selection) states".into();
+    cx.rule = "explicit-state search over selections (bit sets over the faces of a tetrahedron, a two-normal 'roof', an octahedron and the roof with an extra zero-area face): initial states none, all, every singleton, every pair; actions {Add, Remove, Keep} x {facing: 7 directions x 3 angles; near_mesh: 3 reference meshes x all/any vertices x 2 distances x planar None/0.2 x angle None/0.3/1.0}; every transition (and the mesh built from every state) is executed under all hash-set iteration orders with at most 2 departures from the default order; the per-face predicate is computed (i) independently from the geometry for the plane references and (ii) by the code itself in the canonical context (singleton selection, Keep). distinct = distinct (mesh, selection) states".into();
     let t = tables();
     cx.bounds = json!({"max_deviations": MAX_DEV, "criteria": t.crits.len(), "meshes": 3, "depth": "closure", "execution_cap": EXEC_CAP});
     cx.require(&["non-initial selection", "empty selection", "full selection", "partial selection", "facing criterion", "near-mesh criterion with angle tolerance", "near-mesh criterion without angle tolerance", "independent predicate agrees"]);
@@ -313,7 +322,7 @@ pub fn run(tier: Tier) -> i32 {
     cx.absorb(l0);
 
     let mut init = Vec::new();
-    for mi in 0..3 {
+    for mi in 0..N_MESHES {
         let nf = t.meshes[mi].faces().len();
         if tier == Tier::Quick && mi == 2 {
             // the octahedron's closure is explored in the thorough tier; quick starts from fewer states
